@@ -255,3 +255,31 @@ func det(t *testing.T) {
 		fmt.Fprintf(f, "%d %s %s d=%d sw=%d\n", idx, res.LogHash, res.Signature(), res.Decisions, res.Switches)
 	}
 }
+
+// timing prints the slowest worlds of a range (developer aid).
+func TestTiming(t *testing.T) {
+	if *fMode != "timing" {
+		t.Skip()
+	}
+	type rec struct {
+		idx int
+		d   time.Duration
+		dec int64
+	}
+	var recs []rec
+	for idx := *fFrom; idx < *fTo; idx += *fStride {
+		w := gen.World(*fProp, *fSeed, idx, *fTier)
+		s := time.Now()
+		res := Run(t, w, false)
+		recs = append(recs, rec{idx, time.Since(s), res.Decisions})
+	}
+	sort.Slice(recs, func(i, j int) bool { return recs[i].d > recs[j].d })
+	var tot time.Duration
+	for _, r := range recs {
+		tot += r.d
+	}
+	fmt.Printf("total %v over %d worlds\n", tot, len(recs))
+	for i := 0; i < 8 && i < len(recs); i++ {
+		fmt.Printf("world %d: %v decisions=%d\n", recs[i].idx, recs[i].d, recs[i].dec)
+	}
+}
